@@ -36,6 +36,29 @@ def _literal_factor(node):
     return None
 
 
+def _init_ints(decl):
+    """integer literals of `T a[n] = {..}` (None when an element is not a literal)"""
+    init = [c for c in decl.get("inner", []) if c.get("kind") == "InitListExpr"]
+    if len(init) != 1:
+        return None
+    out = []
+    for x in init[0].get("inner", []):
+        y, sign = strip(x), 1
+        while y.get("kind") in ("ImplicitCastExpr", "ParenExpr", "CStyleCastExpr", "ConstantExpr"):
+            y = strip(y["inner"][0])
+        if y.get("kind") == "UnaryOperator" and y.get("opcode") == "-":
+            sign, y = -1, strip(y["inner"][0])
+            while y.get("kind") in ("ImplicitCastExpr", "ParenExpr"):
+                y = strip(y["inner"][0])
+        if y.get("kind") != "IntegerLiteral":
+            return None
+        try:
+            out.append(sign * int(y.get("value")))
+        except (TypeError, ValueError):
+            return None
+    return out or None
+
+
 def is_int_type(t):
     return t.replace("const ", "").strip() in INT_TYPES
 
@@ -1253,8 +1276,13 @@ class Analyzer:
                 m = re.match(r"^(.*?)\[(\d+)\]$", t)
                 if m:
                     self.local_arrays[n] = Poly.const(int(m.group(2)))
-                    if d.get("inner") and is_int_type(m.group(1)):
-                        pass
+                    if d.get("inner") and is_int_type(m.group(1).replace("static ", "").strip()):
+                        # integer table with a literal initialiser: its elements lie between the smallest and the largest literal
+                        vals = _init_ints(d)
+                        if vals is not None:
+                            if len(vals) < int(m.group(2)):
+                                vals = vals + [0]          # remaining elements are zero-initialised
+                            st.vars[n + "[*]"] = Bounds((Poly.const(min(vals)),), (Poly.const(max(vals)),))
                     continue
                 init = [c for c in d.get("inner", []) if c.get("kind")]
                 if init:
